@@ -94,7 +94,7 @@ Theorem ite_rec_spec fuel : ∀ s g u v r s',
   match r with
   | Ok w => valid s' w ∧ minlvl3 s g u v ≤ lvl_of s' w ∧
             ∀ a, D s' w a = if D s g a then D s u a else D s v a
-  | Err e => e = ENeedsReordering ∧ is_Some (last_len s)
+  | Err e => benign s e
   end.
 Proof.
   induction fuel as [|f IH]; intros s g u v r s' HI Hg Hu Hv Hfuel; [lia|].
@@ -134,7 +134,7 @@ Proof.
   apply IH in Ep' as (HI1&He1&Hf1&Hp); [|done|done|done|done|lia].
   destruct rp as [p|e]; cycle 1.
   { rewrite (bind_err _ _ _ _ _ Ep). intros [= <- <-].
-    destruct Hp as [-> ?]. by split_and!. }
+    by split_and!. }
   rewrite (bind_ok _ _ _ _ _ Ep).
   destruct Hp as (Hpv&Hpl&HpD).
   (* second recursive call, in the extended manager *)
@@ -148,8 +148,7 @@ Proof.
      |by apply (valid_extends s s1)|rewrite Hnv1, Em1; lia].
   destruct rq as [q|e]; cycle 1.
   { rewrite (bind_err _ _ _ _ _ Eq). intros [= <- <-].
-    destruct Hq as [-> Hll]. split_and!; [done|by etrans|by etrans|done|].
-    destruct Hf1 as (E&_). by rewrite <- E. }
+    split_and!; [done|by etrans|by etrans|]. by apply (benign_frame s s1). }
   rewrite (bind_ok _ _ _ _ _ Eq).
   destruct Hq as (Hqv&Hql&HqD). rewrite Em1 in Hql.
   assert (He02 : extends s s2) by (by etrans).
@@ -162,8 +161,8 @@ Proof.
   apply find_or_add_spec in Ew' as (HI3&He3&Hf3&Hw); [|done..].
   destruct rw as [w|e]; cycle 1.
   { rewrite (bind_err _ _ _ _ _ Ew). intros [= <- <-].
-    destruct Hw as (->&Hll&_). split_and!; [done|by etrans|by do 2 etrans|done|].
-    destruct Hf1 as (E1&_), Hf2 as (E2&_). by rewrite <- E1, <- E2. }
+    destruct Hw as (Hw&_). split_and!; [done|by etrans|by do 2 etrans|].
+    apply (benign_frame s s1); [done|]. by apply (benign_frame s1 s2). }
   rewrite (bind_ok _ _ _ _ _ Ew).
   destruct Hw as (Hwv&Hwl&HwD).
   cbn [bind modify ret]. intros [= <- <-].
@@ -178,7 +177,7 @@ Proof.
     + intros a. rewrite (D_extends s s3 g), (D_extends s s3 u), (D_extends s s3 v) by done.
       apply HDw.
   - done.
-  - destruct Hf1 as (?&?&?&?), Hf2 as (?&?&?&?), Hf3 as (?&?&?&?).
+  - destruct Hf1 as (?&?&?&?&?), Hf2 as (?&?&?&?&?), Hf3 as (?&?&?&?&?).
     split_and!; cbn; congruence.
   - done.
   - done.
